@@ -30,6 +30,10 @@ import RegexVerif.Model.Facts
 namespace RegexVerif.SetFacts
 open RegexVerif.Spec RegexVerif.Facts
 
+deriving instance DecidableEq for Cls
+deriving instance DecidableEq for Pred
+deriving instance DecidableEq for Pat
+
 /-- membership in a symbolic set: some leaf test accepts the rune -/
 def memPreds (e : Env) (S : List Pred) (r : Nat) : Bool := S.any (fun p => p.test e r)
 
@@ -223,16 +227,18 @@ def leadLook : Pat → Option Pat × Bool
 
 /-! ### the candidates the harness compares a published set with -/
 
-/-- all proved over-approximations of the character at offset `k` of a left-to-right match: the
-    fixed-offset set, at offset 0 the first-character set, and the same for the body of a leading
-    positive lookahead (whose facts `newFindOptimizations` publishes when the pattern itself yields
-    nothing) -/
+/-- the over-approximations of the character at offset `k` computed from `q` itself: the fixed-offset
+    set and, at offset 0, the first-character set -/
+def ownCandidates (q : Pat) (k : Nat) : List (List Pred) :=
+  (setAt q k).toList ++ (if k = 0 then (firstSet q false).toList else [])
+
+/-- all proved over-approximations of the character at offset `k` of a left-to-right match: those of
+    the pattern and those of the body of a leading positive lookahead (whose facts
+    `newFindOptimizations` publishes when the pattern itself yields nothing) -/
 def setCandidates (p : Pat) (k : Nat) : List (List Pred) :=
-  let own (q : Pat) : List (List Pred) :=
-    (setAt q k).toList ++ (if k = 0 then (firstSet q false).toList else [])
   match (leadLook p).1 with
-  | some b => own p ++ own b
-  | none => own p
+  | some b => ownCandidates p k ++ ownCandidates b k
+  | none => ownCandidates p k
 
 /-- the prefix lists a published `LeadingPrefixes`/`LeadingPrefix` is compared with: of the pattern and
     of the body of its leading positive lookahead -/
